@@ -368,7 +368,7 @@ theorem readPcd_m (s : IS) : (readPcd s).m + 1 ≤ s.m ∨ (readPcd s).m = 0 := 
         (match (match s1.get with | (s', some c') => (s', c') | (s', none) => (s', c1)) with
          | (s2, c2) => if (c2 = 70 || c2 = 78) = true then
               (match (match s2.get with | (s', some c') => (s', c') | (s', none) => (s', c2)) with
-               | (s3, c3) => if c3 = chBackslash then (s3.get).1 else s3)
+               | (s3, c3) => s3)
             else s2)
       else s1).m ≤ s1.m := by
     intro c1
@@ -378,7 +378,7 @@ theorem readPcd_m (s : IS) : (readPcd s).m + 1 ≤ s.m ∨ (readPcd s).m = 0 := 
       obtain ⟨s2, o2⟩ := g2
       have key2 : ∀ c2 : Byte, (if (c2 = 70 || c2 = 78) = true then
               (match (match s2.get with | (s', some c') => (s', c') | (s', none) => (s', c2)) with
-               | (s3, c3) => if c3 = chBackslash then (s3.get).1 else s3)
+               | (s3, c3) => s3)
             else s2).m ≤ s1.m := by
         intro c2
         simp only [] at h2
@@ -386,9 +386,8 @@ theorem readPcd_m (s : IS) : (readPcd s).m + 1 ≤ s.m ∨ (readPcd s).m = 0 := 
         · have h3 := get_m_le s2
           generalize s2.get = g3 at h3
           obtain ⟨s3, o3⟩ := g3
-          have h4 := get_m_le s3
           simp only [] at h3
-          cases o3 <;> simp only [] <;> split <;> omega
+          cases o3 <;> simp only [] <;> omega
         · exact h2
       cases o2 with
       | none => exact key2 c1
